@@ -34,6 +34,7 @@ type state struct {
 	blk    cipher.Block // AES or 3DES block primitive (CTR, CBC)
 	ctr    []byte       // CTR: 128-bit big-endian counter block X (RFC 4344 §4)
 	ks     []byte       // CTR: unused keystream of the current block
+	ksbuf  []byte       // CTR: backing store of ks
 	chain  []byte       // CBC: previous ciphertext block (initially IV)
 	rc     *rc4State
 	aead   cipher.AEAD // GCM
@@ -104,7 +105,10 @@ func newState(cipherName, mac string, keys Keys, o Options) (*state, error) {
 func (s *state) ctrXOR(dst, src []byte) {
 	for i := range src {
 		if len(s.ks) == 0 {
-			s.ks = make([]byte, len(s.ctr))
+			if cap(s.ksbuf) < len(s.ctr) {
+				s.ksbuf = make([]byte, len(s.ctr))
+			}
+			s.ks = s.ksbuf[:len(s.ctr)]
 			s.blk.Encrypt(s.ks, s.ctr)
 			for j := len(s.ctr) - 1; j >= 0; j-- {
 				s.ctr[j]++
@@ -120,8 +124,8 @@ func (s *state) ctrXOR(dst, src []byte) {
 
 func (s *state) cbcEncrypt(dst, src []byte) {
 	bs := s.blk.BlockSize()
+	x := make([]byte, bs)
 	for off := 0; off < len(src); off += bs {
-		x := make([]byte, bs)
 		for j := 0; j < bs; j++ {
 			x[j] = src[off+j] ^ s.chain[j]
 		}
@@ -132,9 +136,10 @@ func (s *state) cbcEncrypt(dst, src []byte) {
 
 func (s *state) cbcDecrypt(dst, src []byte) {
 	bs := s.blk.BlockSize()
+	c := make([]byte, bs)
+	x := make([]byte, bs)
 	for off := 0; off < len(src); off += bs {
-		c := append([]byte(nil), src[off:off+bs]...)
-		x := make([]byte, bs)
+		copy(c, src[off:off+bs])
 		s.blk.Decrypt(x, c)
 		for j := 0; j < bs; j++ {
 			dst[off+j] = x[j] ^ s.chain[j]
@@ -544,6 +549,65 @@ func (wr *Writer) WriteFrame(seq uint32, w io.Writer, declaredLen uint32, body [
 	}
 	if _, err := w.Write(wire); err != nil {
 		return &Error{Kind: "io", Msg: err.Error(), Err: err}
+	}
+	return nil
+}
+
+// ---- Decoder: one direction of a whole connection ----
+
+// MsgNewKeys is SSH_MSG_NEWKEYS (RFC 4253 §12).
+const MsgNewKeys = 21
+
+// Decoder follows one direction of a complete SSH connection byte stream
+// (after the version line): it starts with cipher "none"/MAC "none" and
+// sequence number 0, increments the sequence number per packet (mod 2^32,
+// RFC 4253 §6.4), and switches keys when the caller tells it to — which the
+// caller does right after the packet whose payload starts with MsgNewKeys.
+type Decoder struct {
+	rd  *Reader
+	seq uint32
+	max uint32
+}
+
+// NewDecoder returns a Decoder in the initial state. maxPacketLen 0 means
+// DefaultMaxPacketLen.
+func NewDecoder(maxPacketLen uint32) *Decoder {
+	rd, _ := NewReaderOpts("none", "none", Keys{}, Options{MaxPacketLen: maxPacketLen})
+	return &Decoder{rd: rd, max: maxPacketLen}
+}
+
+// Seq returns the sequence number the next packet will be read with.
+func (d *Decoder) Seq() uint32 { return d.seq }
+
+// Next reads the next packet from r. It returns the sequence number the
+// packet was verified under.
+func (d *Decoder) Next(r io.Reader) (uint32, PacketInfo, error) {
+	seq := d.seq
+	info, err := d.rd.ReadPacket(seq, r)
+	d.seq++
+	return seq, info, err
+}
+
+// Rekey installs new algorithms and keys for all following packets.
+// resetSeq implements "strict KEX" (OpenSSH PROTOCOL 1.10): the sequence
+// number restarts at 0 after SSH_MSG_NEWKEYS; otherwise it keeps counting.
+func (d *Decoder) Rekey(cipherName, mac string, keys Keys, resetSeq bool) error {
+	return d.RekeyOpts(cipherName, mac, keys, resetSeq, Options{})
+}
+
+// RekeyOpts is Rekey with reader Options (MaxPacketLen 0 keeps the
+// Decoder's limit).
+func (d *Decoder) RekeyOpts(cipherName, mac string, keys Keys, resetSeq bool, o Options) error {
+	if o.MaxPacketLen == 0 {
+		o.MaxPacketLen = d.max
+	}
+	rd, err := NewReaderOpts(cipherName, mac, keys, o)
+	if err != nil {
+		return err
+	}
+	d.rd = rd
+	if resetSeq {
+		d.seq = 0
 	}
 	return nil
 }
